@@ -21,7 +21,7 @@ import re
 
 import sympy
 
-from mmsa import au, cfg as cfgmod, dataflow, pathcond, sym, tbrrules
+from mmsa import au, canon, cfg as cfgmod, dataflow, pathcond, sym, tbrrules
 from mmsa.core import Undecided, norm, walk_no_nested
 from mmsa.props import c08
 from mmsa.types import FuncCtx
@@ -50,15 +50,36 @@ def run(repo, rep, tier):
   g, rd = ctx.g, ctx.rd
   # containers per variable name and branch
   conts = {}
-  for n in g.nodes:
-    if n.kind == 'stmt' and isinstance(n.ast, ast.Assign) and isinstance(n.ast.value, ast.Call) and isinstance(n.ast.targets[0], ast.Name):
-      fn = norm(n.ast.value.func)
-      name = n.ast.targets[0].id
-      if name in ('counterfactual_df', 'pointwise_difference_df', 'cumulative_effect_df'):
+  seen_sites = []
+  roles = ('counterfactual_df', 'pointwise_difference_df', 'cumulative_effect_df')
+  # the three series are identified by their position in the returned TimeSeries(...), whatever the locals are called
+  for r in [x for x in g.nodes if x.kind == 'return' and x.ast.value is not None]:
+    rv = r.ast.value
+    if not (isinstance(rv, ast.Call) and norm(rv.func).endswith('TimeSeries') and len(rv.args) == 3 and not rv.keywords):
+      if isinstance(rv, ast.Tuple) and len(rv.elts) == 3:
+        rv = ast.Call(func=ast.Name(id='TimeSeries', ctx=ast.Load()), args=list(rv.elts), keywords=[])
+      else:
+        continue
+    for name, arg in zip(roles, rv.args):
+      sites = [(r, arg)]
+      if isinstance(arg, ast.Name):
+        sites = []
+        for d in sorted(rd.defs_at(r, arg.id), key=lambda d_: d_.node.id):
+          if d.how != 'assign' or d.value is None:
+            rep.undecided('R4/container', name, 'a definition of the returned %s is not an assignment' % name, f.loc(r.ast))
+            continue
+          sites.append((d.node, d.value))
+      for n, call in sites:
+        if not isinstance(call, ast.Call):
+          rep.undecided('R4/container', name, 'the returned %s is not built by a call: %s' % (name, norm(call)[:60]), f.loc(r.ast))
+          continue
+        fn = norm(rd.expand(n, call.func)[0])      # a local alias of the container class is looked through
         ok = fn.endswith('EstimatedTimeSeriesWithConfidenceInterval')
         rep.check(ok, 'R4/container', '%s is built by the validating container' % name, f.qualname, '%s = %s(...)' % (name, fn[-50:]),
-                  '%s is built by %s, not by the container that enforces lower <= estimate <= upper' % (name, fn), f.loc(n.ast))
-        conts.setdefault(name, []).append((n, dict_of(n.ast.value)))
+                  '%s is built by %s, not by the container that enforces lower <= estimate <= upper' % (name, fn), f.loc(call))
+        if (n, call) not in [(a_, b_) for a_, b_ in seen_sites]:
+          seen_sites.append((n, call))
+          conts.setdefault(name, []).append((n, dict_of(call)))
   rep.floor('series containers constructed', sum(len(v) for v in conts.values()), 6)
   # which branch is the fixed-cost one: dominated by the true branch of the scenario test
   test = [n for n in g.nodes if n.kind == 'test' and '_is_fixed_cost_scenario()' in norm(n.expr)]
@@ -86,6 +107,20 @@ def run(repo, rep, tier):
   if not (cf and pw and cu):
     rep.undecided('R1/column-algebra', 'general branch', 'column dictionaries not found', f.loc())
     return
+  # the local naming the chosen model (metric_df in the pinned code): assigned self.tbr_response / self.tbr_cost
+  mname = 'metric_df'
+  for n_ in g.nodes:
+    if n_.kind == 'stmt' and isinstance(n_.ast, ast.Assign) and isinstance(n_.ast.targets[0], ast.Name) and norm(n_.ast.value) in ('self.tbr_response', 'self.tbr_cost'):
+      mname = n_.ast.targets[0].id
+  cn_ = canon.of(repo)
+
+  def mtext(e):
+    """Canonical text with the model local renamed to metric_df."""
+    e = cn_.expr(e)
+    for x in ast.walk(e):
+      if isinstance(x, ast.Name) and x.id == mname:
+        x.id = 'metric_df'
+    return norm(e)
   keep = ('treat_vec', 'lower', 'upper', 'pointwise_difference')
   S = {}
 
@@ -131,19 +166,19 @@ def run(repo, rep, tier):
       dist = dist or m.group(1)
       rep.check(m.group(1) == dist, 'R2/same-distribution', 'both pointwise bounds use one posterior object', f.qualname, m.group(1), 'bounds use different posterior objects', f.loc(d.node.ast))
   for bound, qarg in (('lower', 'tail_probability'), ('upper', '1 - tail_probability')):
-    t = norm(cu[bound]) if bound in cu else ''
+    t = norm(rd.expand(un, cu[bound], keep=tuple(x for x in (dist, 'tail_probability') if x))[0]) if bound in cu else ''
     rep.check(dist is not None and t == '%s.ppf(%s)' % (dist, qarg), 'R2/same-distribution', 'cumulative %s = posterior quantile at %s of the same object' % (bound, qarg), f.qualname,
               'cumulative %s = %s' % (bound, t[:80]), 'the cumulative %s bound is `%s`, not the %s quantile of the posterior whose differences give the pointwise bounds' % (bound, t[:80], qarg), f.loc(un.ast))
   if dist:
     dd = rd.single_def(un, dist)
-    t = norm(rd.expand(dd.node, dd.value, keep=('metric_df',))[0]) if dd is not None and dd.value is not None else ''
+    t = mtext(rd.expand(dd.node, dd.value, keep=(mname,))[0]) if dd is not None and dd.value is not None else ''
     rep.check(t == 'metric_df.causal_cumulative_distribution()', 'R2/same-distribution', 'the posterior is the cumulative distribution of the chosen metric', f.qualname,
               '%s = %s' % (dist, t), 'the posterior object is `%s`' % t, f.loc())
-  et = norm(rd.expand(un, cu['estimate'], keep=('metric_df', 'periods', 'test_start_date', 'cooldown_end_date'), depth=4)[0]) if 'estimate' in cu else ''
-  want = "np.cumsum(metric_df.causal_effect(periods)).reset_index().rename(columns={0: 'metric'}).loc[np.cumsum(metric_df.causal_effect(periods)).reset_index().rename(columns={0: 'metric'})['date'].between(test_start_date, cooldown_end_date), 'metric']"
+  et = mtext(rd.expand(un, cu['estimate'], keep=(mname, 'periods', 'test_start_date', 'cooldown_end_date'), depth=4)[0]) if 'estimate' in cu else ''
+  want = cn_.ctext("np.cumsum(metric_df.causal_effect(periods)).reset_index().rename(columns={0: 'metric'}).loc[np.cumsum(metric_df.causal_effect(periods)).reset_index().rename(columns={0: 'metric'})['date'].between(test_start_date, cooldown_end_date), 'metric']")
   rep.check(et == want, 'R2/same-distribution', 'cumulative estimate = cumsum of the causal effect restricted to experiment dates', f.qualname, 'estimate = ' + et[:200],
             'the cumulative estimate is `%s`' % et[:180], f.loc(un.ast))
-  pe = norm(rd.expand(pn, pw['estimate'], keep=('metric_df', 'periods'), depth=4)[0])
+  pe = mtext(rd.expand(pn, pw['estimate'], keep=(mname, 'periods'), depth=4)[0])
   rep.check(pe == "metric_df.causal_effect(periods).reset_index().rename(columns={0: 'metric'})['metric']", 'R2/same-distribution',
             'pointwise estimate = causal effect over pre, test and cooldown periods', f.qualname, 'estimate = ' + pe[:140], 'the pointwise estimate is `%s`' % pe[:120], f.loc(pn.ast))
   # fixed-cost branch
@@ -194,9 +229,15 @@ def run(repo, rep, tier):
     out = []
     for bound in ('lower', 'upper'):
       if bound in cu:
-        for c in au.calls_in(cu[bound]):
+        val = cu[bound]
+        at = un
+        if isinstance(val, ast.Name):       # named quantile: cumulative_lower = delta.ppf(p)
+          d_ = rd_.single_def(un, val.id)
+          if d_ is not None and d_.how == 'assign' and d_.value is not None:
+            val, at = d_.value, d_.node
+        for c in au.calls_in(val):
           if isinstance(c.func, ast.Attribute) and c.func.attr == 'ppf' and c.args:
-            out.append((bound, c.args[0], un, 'cumulative %s' % bound))
+            out.append((bound, c.args[0], at, 'cumulative %s' % bound))
     return out
   n = tbrrules.quantile_order(rep, f, 'R3/quantile-order', tbrrules.Iv(0.0, 1.0, True, True), sites, prop_hint=' and the series container raises ValueError')
   rep.floor('quantile-order obligations', n, 4)
